@@ -52,7 +52,6 @@ def main(argv) -> int:
         sys.setrecursionlimit(getattr(mod, 'RECURSION_LIMIT', 1000))
         if isinstance(spec, dict) and '$replay' in spec:
             mod.replay(spec['$replay']['case'], ctx)
-            ctx.evaluated()
         else:
             mod.run_shard(spec, ctx)
     except BaseException as e:  # harness failure: never a verdict
